@@ -150,7 +150,8 @@ Print Assumptions C18_objects_order_of_right_irrelevant.
    are needed (a NaN leaf, a repeated key).  The model's operands are the contents of two stored values: when
    both operands are the very same stored array the library answers true by its same-pointer shortcut
    (JsonArrayConst::operator==), which differs from the element-wise answer only with a NaN leaf or a repeated
-   key inside -- a case the property does not constrain and the correspondence run does not exercise. *)
+   key inside -- a case the property does not constrain; the correspondence run compares every left operand with itself and
+   requires the coherence laws of the answers, whatever == says there. *)
 Theorem C18_eq_reflexive : forall v, wf v -> float_free v -> op_eq v v = true.
 Proof. exact eq_reflexive. Qed.
 Print Assumptions C18_eq_reflexive.
